@@ -595,7 +595,7 @@ def direction_b(ck, dev):
     rng = random.Random(ck.seed + 10)
     traces = sample_traces(ck)
     ns = len(traces)
-    traces += big_traces(ck, rng, 12 if ck.tier == "quick" else 300)
+    traces += big_traces(ck, rng, 12 if ck.tier == "quick" else 200)
     ck.extra["trace_events"] = sum(len(t["events"]) for t in traces)
     ck.extra["trace_objects"] = sum(len(t["objs"]) for t in traces)
     acc = validate_traces(ck, traces, dev, "decrypt-call traces (%d repository samples x passwords, %d generated documents)" % (ns, len(traces) - ns))
